@@ -473,6 +473,12 @@ def units():
     from contracts import c02
     for order in ("gq", "qg"):
         u.append(("coef-scaling/" + order, c02.unit_gto_homogeneity(order)))
+    # what the feature generator actually feeds to the convolution (interpolation argument and function to convolve, in its call order on one rho tuple)
+    # are the exponent / rho * exponent whose scaling powers unit exponent/* proves
+    for kind in ("NLDFGaussianPlan", "NLDFSplinePlan"):
+        for level in ("MGGA", "GGA"):
+            for rm in ("one", "expnt"):
+                u.append(("generator-inputs/%s/%s/%s" % (kind, level, rm), c02.unit_function_to_convolve(kind, level, rm)))
     return u
 
 
